@@ -84,15 +84,19 @@ theorem ae_stale_term_inert (cf : Cfg) (d : Durable) (v : Vol) (a : AEReq) (f c 
 /-- an InstallSnapshot the server is already past (by what it has applied, or because it holds the
     snapshot's last entry) is acknowledged without any durable write and without touching the FSM -/
 theorem install_covered_inert (cf : Cfg) (d : Durable) (v : Vol) (q : ISReq)
-    (ht : q.term = v.term) (h : q.lastIdx ≤ v.applied ∨ holdsEntry d { v with leader := q.leader, leaderId := q.leaderId } q.lastIdx q.lastTerm = true) :
+    (ht : q.term = v.term) (hrole : v.role = .follower) (h : q.lastIdx ≤ v.applied ∨ holdsEntry d { v with leader := q.leader, leaderId := q.leaderId } q.lastIdx q.lastTerm = true) :
     (isPlan cf d v q).steps = [] ∧ (isPlan cf d v q).final.fsm = [] ∧
     (isPlan cf d v q).final.resp = .install v.term true false ∧
     (isPlan cf d v q).final.vol = { v with leader := q.leader, leaderId := q.leaderId } := by
   have h1 : ¬ q.term < v.term := by omega
   have h2 : ¬ q.term > v.term := by omega
+  have hdn : ¬ isDown v q := by
+    unfold isDown; rintro (hx | ⟨hx, _⟩)
+    · exact h2 hx
+    · exact hx hrole
   have hv2 : isVol2 v q = { v with leader := q.leader, leaderId := q.leaderId } := by
-    simp [isVol2, h2]
-  simp only [isPlan, h1, if_false, isPre, h2, hv2, isTail]
+    simp [isVol2, hdn]
+  simp only [isPlan, h1, if_false, isPre, hdn, hv2, isTail]
   rcases h with h | h
   · simp [h, mkRes]
   · simp [h, mkRes]
